@@ -36,7 +36,15 @@ def cat_rows(cats, order, reps=1):
     return rows
 
 
-def build_frame(env, formula_vars, flavour="str", order="sorted", reps=1, min_rows=3, extra=None, prefix=""):
+def concrete_column(name, n):
+    """deterministic generic float data (distinct, no ties, not sorted)"""
+    from vf.pipe import hash_str
+
+    base = hash_str(name) % 97
+    return np.array([((base + 37 * i * i + 11 * i) % 101) / 4.0 - 7.0 + i * 0.125 for i in range(n)], dtype=float)
+
+
+def build_frame(env, formula_vars, flavour="str", order="sorted", reps=1, min_rows=3, extra=None, prefix="", concrete=False):
     """returns (DataFrame, rows) where rows[i] is a dict of the cell values of row i.
     numeric cells are fresh symbols (env.real) named <prefix><var>_<i>"""
     cats = [v for v in formula_vars if v in LEVELS]
@@ -57,7 +65,7 @@ def build_frame(env, formula_vars, flavour="str", order="sorted", reps=1, min_ro
             else:
                 raise ValueError(flavour)
         else:
-            col = env.column(prefix + v, n, integer=False)
+            col = concrete_column(prefix + v, n) if concrete else env.column(prefix + v, n, integer=False)
             cols[v] = col
             for i in range(n):
                 rows[i] = dict(rows[i])
